@@ -910,9 +910,52 @@ def has_absurd_length(b):
     return False
 
 
+def f06_sites(b):
+    """Does the known defect F06 have a place to bite in these octets?  The wrapper drops its cache (and
+    restarts position numbering) when an item starts more than BUF octets after the cache's origin; that is
+    harmful exactly when some enclosing element is being decoded by a loop that holds an absolute start
+    position, i.e. a DEFINITE-length constructed element (containers, constructed strings, explicit tags).
+    Walks the TLVs the decoder would visit; anything it cannot parse counts as a possible site."""
+    origin = 0
+    stack = []              # (end offset or None for indefinite, definite?)
+    pos, n = 0, len(b)
+    try:
+        while pos < n:
+            while stack and stack[-1][0] is not None and pos >= stack[-1][0]:
+                stack.pop()
+            if pos - origin > BUF:
+                if any(d for _, d in stack):
+                    return True
+                origin = pos
+            start = pos
+            first = b[pos]; pos += 1
+            if first & 0x1f == 0x1f:
+                while b[pos] & 0x80: pos += 1
+                pos += 1
+            l = b[pos]; pos += 1
+            if first == 0 and l == 0:                       # end-of-octets
+                while stack and stack[-1][0] is not None: stack.pop()
+                if stack: stack.pop()
+                continue
+            if l == 0x80:
+                if not first & 0x20: return True
+                stack.append((None, False)); continue
+            if l & 0x80:
+                k = l & 0x7f
+                l = int.from_bytes(b[pos:pos + k], 'big'); pos += k
+            if first & 0x20:
+                stack.append((pos + l, True))
+            else:
+                pos += l
+        return False
+    except IndexError:
+        return True
+
+
 def f06_class(kind, b):
-    """finding F06 can only bite where the wrapper is in use and can have dropped its cache"""
-    return kind.startswith('nonseekable') and len(b) > BUF
+    """finding F06 can only bite where the wrapper is in use, can have dropped its cache, and some decoder
+    loop was holding an absolute position across the drop"""
+    return kind.startswith('nonseekable') and len(b) > BUF and f06_sites(b)
 
 
 def compare_kinds(ctx, kinds, label, encname, dec, desc, b, variant):
@@ -947,7 +990,7 @@ def compare_kinds(ctx, kinds, label, encname, dec, desc, b, variant):
             if kind == 'nonseekable-nonblocking' and got[0] == 'crash' and got[1] == 'TypeError' \
                     and isinstance(got[-1], int) and got[-1] > 0:
                 fid = 'F05'       # None from the raw stream reached BytesIO.write
-            elif {got[:2], refout[:2]} & {('crash', 'OverflowError'), ('crash', 'MemoryError')} and has_absurd_length(b):
+            elif {got[:2], refout[:2]} & {('crash', 'MemoryError')} and has_absurd_length(b):     # the OverflowError half was repaired (6fa8558)
                 fid = 'F22'       # absurd length handed to read(): substrate kinds differ in how they take it
             elif f06_class(kind, b):
                 if fn(dec, kinds, kind + '/absolute-positions', spec)[:3] == refout[:3]:
